@@ -7,6 +7,10 @@ OpsQuick ==
         c \in {"none", "pre", "suf"}, cv \in {9, 0}, a \in {"none", "arg"}, av \in {92, 0}, aw \in {8}, al \in BOOLEAN, aen \in {"def", "little"} }
     \cup { O(c, 6, 4, "arg", 2652, 12, al, aen) : c \in {"none", "pre", "suf"}, al \in BOOLEAN, aen \in {"def", "big", "little"} }
     \cup { O(c, 5, 3, "arg", -2, 5, FALSE, "def") : c \in {"pre", "suf"} }
+    \cup { O("none", 9, 4, a, av, 8, al, "def") : a \in {"rel", "relend"}, av \in {-3, 92}, al \in BOOLEAN }
+    \cup { O("none", 9, 4, a, -700, 12, FALSE, aen) : a \in {"rel", "relend"}, aen \in {"def", "little"} }
+    \cup { O("none", 9, 4, "slice", 2652, 12, al, aen) : al \in BOOLEAN, aen \in {"def", "little"} }
+    \cup { O("none", 9, 4, "slice", 19, 5, FALSE, "def"), O("none", 9, 4, "slice", 172, 8, TRUE, "def") }
 OpsOk(S) == { o \in S : ~(o.c = "none" /\ o.a = "none") /\ (o.c = "none" => o.cv = 9) /\ (o.a = "none" => (o.av = 92 /\ o.aw = 8 /\ ~o.al /\ o.aen = "def")) }
 OpsQ == OpsOk(OpsQuick)
 BasesQ == { Base(d, 181, 8, e, sp, 5, 4, ra, rc) : d \in {"big", "little"}, e \in {"def"}, sp \in BOOLEAN, ra \in BOOLEAN, rc \in BOOLEAN }
